@@ -30,6 +30,8 @@ type World struct {
 	OP        *OPNode
 	Issuer    string
 	Router    string
+	// QueryKeys names form parameters that PostForm sends in the URL query instead of the body.
+	QueryKeys []string
 	CryptoKey [32]byte
 	Conf      *op.Config
 	Caps      Caps
@@ -258,7 +260,19 @@ func (w *World) PostFormCtx(ctx context.Context, path string, form url.Values, c
 			f.Set("client_id", c.ID)
 		}
 	}
-	req, err := http.NewRequestWithContext(ctx, "POST", w.Issuer+path, strings.NewReader(f.Encode()))
+	// parameters named in QueryKeys travel in the URL query instead of the body (net/http merges both into r.Form)
+	target := w.Issuer + path
+	q := url.Values{}
+	for _, k := range w.QueryKeys {
+		if v, ok := f[k]; ok {
+			q[k] = v
+			delete(f, k)
+		}
+	}
+	if len(q) > 0 {
+		target += "?" + q.Encode()
+	}
+	req, err := http.NewRequestWithContext(ctx, "POST", target, strings.NewReader(f.Encode()))
 	if err != nil {
 		return &Resp{Err: err}
 	}
